@@ -159,3 +159,5 @@ func check(c Case) (r pbt.Result) {
 }
 
 func TestClimateOrdering(t *testing.T) { pbt.Run(t, gen, check) }
+
+func FuzzClimateOrdering(f *testing.F) { pbt.Fuzz(f, gen, check) }
